@@ -99,6 +99,18 @@ func syntaxCase(in []byte) (msg string, accepted bool) {
 	if out2 := modfile.Format(fs2); string(out2) != string(out) {
 		return fmt.Sprintf("formatting is not idempotent: %q -> %q -> %q", in, out, out2), true
 	}
+	// what Format returns belongs to the caller, and what Parse was given still belongs to the caller:
+	// overwriting either must not change what the same tree formats to
+	keep := string(out)
+	for i := range out {
+		out[i] = 'X'
+	}
+	for i := range in {
+		in[i] = 'Y'
+	}
+	if out3 := modfile.Format(fs); string(out3) != keep {
+		return fmt.Sprintf("Format of the same tree gives %q after the caller overwrote the input and the previous result (before: %q)", out3, keep), true
+	}
 	return "", true
 }
 
